@@ -156,9 +156,13 @@ Theorem auto_fraction_display : forall (is_int : bool) (d : dec) (places : Z) (s
 Proof. exact auto_fraction_lemma. Qed.
 Print Assumptions auto_fraction_display.
 
-(* open finding auto-integer:ge2^53.  Full statement: a float whose decimal is an integer is shown digit
-   for digit.  It holds below 2^53 (_partial) and fails above (_refuted: 0.754499470762295e15 as a
-   percentage, i.e. the decimal 754499470762295 * 10^2, is shown as 75449947076229504). *)
+(* open finding auto-integer:over-15-digits (automatic places print int(float) in full).
+   Full statement: a float whose decimal is an integer is shown digit for digit.  It holds below 2^53
+   (_partial; this covers every displayed integer below 10^15 < 2^53, the complement of the finding's
+   signature) and fails above (_refuted: the decimal 754499470762295 * 10^2 - 0.754499470762295e15 as a
+   percentage - is shown as 75449947076229504).  Between 10^15 and 2^53 the text is faithful to the
+   decimal that reaches the formatter, but for percentages that decimal is repr(value*100), whose 16th
+   digit already carries the rounding of the binary64 product (trusted base: the product is Python's). *)
 Theorem auto_float_integer_partial : forall (d : dec) (places : Z) (sep : bool) (ns : Z) (pct : bool),
   AUTO <= places -> 0 < dmant d -> 0 <= dexp d -> dmant d * 10 ^ dexp d < 2 ^ 53 ->
   let n := dmant d * 10 ^ dexp d in
